@@ -2,6 +2,7 @@
 
 from __future__ import annotations
 
+from inspect import isgenerator
 from typing import TYPE_CHECKING, Any
 
 from hypergraph.runners._shared.helpers import (
@@ -44,8 +45,10 @@ class SyncFunctionNodeExecutor:
         # Call the function
         result = node.func(**func_inputs)
 
-        # Handle generators - accumulate to list
-        if node.is_generator:
+        # Handle generators - accumulate to list. The RESULT decides, as in the
+        # async executor: a plain function may return a generator object (a
+        # helper's generator handed through, a decorated generator function).
+        if node.is_generator or isgenerator(result):
             result = list(result)
 
         return wrap_outputs(node, result)
